@@ -74,8 +74,9 @@ type Summary struct {
 	Skipped    int64            `json:"skipped"`
 	Remeasured int64            `json:"remeasured"`
 	MaxLen     int              `json:"max_len"`
-	MaxAlloc   uint64           `json:"max_alloc"`      // largest per-pair TotalAlloc delta measured individually
-	MaxRatio   float64          `json:"max_ratio"`      // largest (delta-64KiB)/len among individually measured pairs that stayed within the bound
+	MaxAlloc   uint64           `json:"max_alloc"` // largest per-pair TotalAlloc delta measured individually
+	MaxRatio   float64          `json:"max_ratio"` // largest (delta-64KiB)/len among individually measured pairs that stayed within the bound
+	MaxRatioAt string           `json:"max_ratio_at,omitempty"`
 	ByClass    map[string]int64 `json:"by_class"`       // pairs per entry class
 	Recovered  map[string]int64 `json:"recv_recovered"` // panics AdapterProxy.Recv recovered, by cause
 	Viols      map[string]*Viol `json:"viols,omitempty"`
@@ -127,8 +128,8 @@ func (s *Summary) merge(o *Summary) {
 	if o.MaxAlloc > s.MaxAlloc {
 		s.MaxAlloc = o.MaxAlloc
 	}
-	if o.MaxRatio > s.MaxRatio {
-		s.MaxRatio = o.MaxRatio
+	if o.MaxRatio > s.MaxRatio || o.MaxRatio == s.MaxRatio && o.MaxRatioAt < s.MaxRatioAt {
+		s.MaxRatio, s.MaxRatioAt = o.MaxRatio, o.MaxRatioAt
 	}
 	for k, v := range o.ByClass {
 		s.ByClass[k] += v
@@ -483,6 +484,7 @@ func (w *workerState) runJob(j *Job) error {
 			} else if len(pkt) > 0 && d > allocConst {
 				if ratio := float64(d-allocConst) / float64(len(pkt)); ratio > sum.MaxRatio {
 					sum.MaxRatio = ratio
+					sum.MaxRatioAt = fmt.Sprintf("%s case %d on %s: %d bytes allocated for a packet of %d bytes (%s)", fam.name, c.idx, e.name, d, len(pkt), c.label)
 				}
 			}
 			if d > 32<<20 {
